@@ -604,6 +604,49 @@ fn stale_session(s: &mut Session, by_rename: bool) {
     s.person = Vec::new();
 }
 
+/// F14: the delete window.  Account deletion is two commands (delete_many problems, then delete_one user).  A problem that the
+/// same person inserts from a second device between the two survives the account and falls to whoever registers the name next.
+fn race_delete_window(s: &mut Session) {
+    s.jars = vec![None; 4];
+    s.me = vec!["-".to_string(); 4];
+    s.person = vec![0, 1, 2, 0];
+    s.ctrl.cmd(json!({"cmd": "reset"}));
+    s.scen = "race-delete".into();
+    s.seq = 0;
+    s.expected_updates = 0;
+    s.out.push(json!({"kind": "reset", "id": s.scen, "principals": 2, "race": "delete-window"}));
+    s.req(Some(0), "register", json!({"username": "dwalice", "password": "pw-A-1"}));
+    s.req(Some(0), "login", json!({"username": "dwalice", "password": "pw-A-1"}));
+    s.req(Some(3), "login", json!({"username": "dwalice", "password": "pw-A-1"}));
+    s.settle(true);
+    // hold the second command of A's account deletion (delete_one on the users collection)
+    let h = s.ctrl.cmd(json!({"cmd": "hold", "match": {"cmd": "delete", "coll": "users", "contains": "dwalice"}}));
+    let hid = h["hold"].as_u64().unwrap_or(0);
+    let jar_a = s.jars[0].clone();
+    s.out.push(json!({"kind": "http_start", "id": format!("{}#launch", s.scen), "p": 1, "dev": 1, "op": "delete_account", "args": {}}));
+    let t = std::thread::spawn(move || http("DELETE", "/users/delete", jar_a.as_deref(), None, &[]));
+    let held = s.ctrl.cmd(json!({"cmd": "held", "hold": hid, "wait_ms": 15000}));
+    let parked = held["held"].as_array().map(|a| !a.is_empty()).unwrap_or(false);
+    s.out.push(json!({"kind": "note", "id": format!("{}#hold", s.scen), "parked": parked}));
+    // A's other device stores a problem while the deletion is half done
+    s.req(Some(3), "add", json!({"name": "ORPHAN", "parsing": "Naive", "class": "good", "code": "s(p1k1s0).ac(p1k1s0,c(v))."}));
+    s.ctrl.cmd(json!({"cmd": "release", "id": hid}));
+    let ra = t.join().unwrap();
+    s.jars[0] = None;
+    s.me[0] = "-".to_string();
+    s.seq += 1;
+    s.out.push(json!({"kind": "http", "id": format!("{}#{}", s.scen, s.seq), "p": 1, "dev": 1, "op": "delete_account", "args": {}, "had_cookie": true,
+                      "status": ra.status, "body": {"text": ""}, "cookie_after": false, "concurrent": true, "me": "dwalice", "db": []}));
+    s.settle(true);
+    // B takes the free name - and inherits the orphan
+    s.req(Some(1), "register", json!({"username": "dwalice", "password": "pw-B-2"}));
+    s.req(Some(1), "login", json!({"username": "dwalice", "password": "pw-B-2"}));
+    s.req(Some(1), "list", json!({}));
+    s.req(Some(1), "get", json!({"name": "ORPHAN"}));
+    s.settle(true);
+    s.person = Vec::new();
+}
+
 /// two users own a problem with the SAME name; one of them runs a slow task; what does the other one see meanwhile?
 fn slow_task_scenario(s: &mut Session) {
     s.jars = vec![None; 3];
@@ -676,12 +719,13 @@ pub fn main(args: &[String]) {
     race_stale_write(&mut s);
     stale_session(&mut s, false);
     stale_session(&mut s, true);
+    race_delete_window(&mut s);
     let mut f = std::io::BufWriter::new(std::fs::File::create(&out).expect("cannot create out file"));
     for r in &s.out {
         writeln!(f, "{}", r).unwrap();
     }
     f.flush().unwrap();
-    eprintln!("server: {} scenarios, {} records", n + 6, s.out.len());
+    eprintln!("server: {} scenarios, {} records", n + 7, s.out.len());
     drop(procs);
     std::process::exit(0);
 }
